@@ -110,11 +110,16 @@ def cases(tier, seed):
         kc = knot_case(rng, pmin=0, pmax=6, max_spans=9, wild=(i % 2 == 0), a=float(rng.uniform(-3, 0)), b=float(rng.uniform(0.5, 4)))
         kc['kind'] = 'queries'; kc['idx'] = i; kc['seed'] = seed
         yield kc
+    if tier == 'thorough':
+        yield {'kind': 'suite'}      # the repository's own tests as a further workload, run under this check's monitors
 
 def run_case(rec, case):
     from pyiga import bspline
     from verif.api import guarded
     kind = case['kind']
+    if kind == 'suite':
+        from verif.suite import run_suite
+        rec.case(case, nontrivial=True); run_suite(rec, 'c19', case); return
     if kind == 'make_knots_block':
         p, a, b = case['p'], case['a'], case['b']
         rec.case(case, nontrivial=True)
